@@ -424,6 +424,10 @@ func (g *hgen) field(prefix string, depth int, last bool) []hcol {
 		return []hcol{{prefix + g.word(), "[]" + g.scalarType() + g.prop("list")}}
 	case 4: // incell map
 		kt := []string{"int32", "uint32", "string", "int64", "enum<.FruitType>", "bool"}[g.r.Intn(6)]
+		if g.r.Intn(3) == 0 {
+			// one of the two separators set at field level, the other left to the sheet / book / default
+			return []hcol{{prefix + g.word(), "map<" + kt + ", " + g.scalarType() + ">" + []string{`|{sep:";"}`, `|{subsep:"="}`, `|{sep:"|"}`}[g.r.Intn(3)]}}
+		}
 		return []hcol{{prefix + g.word(), "map<" + kt + ", " + g.scalarType() + ">" + g.prop("map")}}
 	case 5: // incell struct / incell struct list / predefined incell struct
 		switch g.r.Intn(4) {
@@ -708,7 +712,19 @@ func init() {
 		w := newWorkspace()
 		defer w.cleanup()
 		notes := make([]string, len(names))
-		w.writeCSVBook("", bookSpec{Name: "Book", Sheets: []sheetSpec{{Name: "HeroConf", Rows: [][]string{names, types, notes}, Meta: map[string]string{"Nested": map[bool]string{true: "true", false: "false"}[a[2] == "1"]}}}})
+		for len(types) < len(names) {
+			types = append(types, "")
+		}
+		// every third case: the same header on a TRANSPOSED sheet (fields run down the rows: the name cells are column
+		// A, the type cells column B, the field's index is the row)
+		transposed := mustInt(a[5])%3 == 2 && len(types) == len(names)
+		meta := map[string]string{"Nested": map[bool]string{true: "true", false: "false"}[a[2] == "1"]}
+		rows := [][]string{names, types, notes}
+		if transposed {
+			rows = transposeRows(rows)
+			meta["Transpose"] = "true"
+		}
+		w.writeCSVBook("", bookSpec{Name: "Book", Sheets: []sheetSpec{{Name: "HeroConf", Rows: rows, Meta: meta}}})
 		err := w.genProto(runOpts{})
 		if err == nil {
 			return "ok"
@@ -735,6 +751,21 @@ func init() {
 		}
 		if np == "" && tp == "" {
 			return "ok" // not a header rejection: the header parser accepted, a later stage of protogen refused the workbook
+		}
+		if transposed {
+			// "A<n>" and "B<n>": the field's index is n-1
+			if !strings.HasPrefix(np, "A") || !strings.HasPrefix(tp, "B") {
+				return "err ?"
+			}
+			n1, e1 := strconv.Atoi(np[1:])
+			n2, e2 := strconv.Atoi(tp[1:])
+			if e1 != nil || e2 != nil {
+				return "err ?"
+			}
+			if n1 != n2 {
+				return "err name-and-type-cells-differ"
+			}
+			return "err " + strconv.Itoa(n1-1)
 		}
 		c1, ok1 := col(np, "1")
 		c2, ok2 := col(tp, "2")
@@ -779,7 +810,8 @@ func fuzzCell(r *rand.Rand, typ string) string {
 	t := strings.ToLower(typ)
 	switch {
 	case strings.Contains(t, "map<"):
-		return []string{"1:2", "1:a,2:b", "a:1", "1:1,1:2", "", "1:", ":1", "1:2:3"}[r.Intn(8)]
+		// (blank items between separators too: "1:a;;2:b", a cell that is only a separator)
+		return []string{"1:2", "1:a,2:b", "a:1", "1:1,1:2", "", "1:", ":1", "1:2:3", "1:a;;2:b", "7:x;", ";", "1:a,,2:b", ",", "1:a|2:b||"}[r.Intn(14)]
 	case strings.HasPrefix(t, "[]{") || strings.Contains(t, "}"):
 		return []string{"1,a", "1,a,2,b", "1", "", "1,", ",a", "1:a,2:b", "1,a;2,b"}[r.Intn(8)]
 	case strings.HasPrefix(t, "["):
@@ -968,4 +1000,54 @@ func init() {
 			return "HANG"
 		}
 	})
+
+	// e2e.C17.sepCells: in-cell aggregates whose field property sets ONE of the two separators (the other comes from the
+	// sheet, the book or the default) × cells with blank items, lone separators, separators of the other level: whatever
+	// the cell says, the conversion returns (a result or an error).   c17.sepcell <type index> <cell index> <sheet sep index>
+	regStream("e2e.C17.sepCells", func(r *rand.Rand, n int, emit func(string, ...string)) {
+		for i := 0; i < n; i++ {
+			emit("c17.sepcell", strconv.Itoa(i%len(c17SepTypes)), strconv.Itoa(r.Intn(len(c17SepCells))), strconv.Itoa(r.Intn(3)))
+		}
+	})
+	regImpl("c17.sepcell", func(a []string) string {
+		typ, cell := c17SepTypes[mustInt(a[0])], c17SepCells[mustInt(a[1])]
+		meta := map[string]string{}
+		switch a[2] {
+		case "1":
+			meta["Sep"] = "|"
+		case "2":
+			meta["Subsep"] = "="
+		}
+		w := newWorkspace()
+		w.writeCSVBook("", bookSpec{Name: "Book", Sheets: []sheetSpec{{Name: "CellConf", Meta: meta,
+			Rows: [][]string{{"ID", "Data"}, {"map<uint32, Item>", typ}, {"id", "data"}, {"1", cell}, {"2", ""}, {"3", cell}}}}})
+		done := make(chan string, 1)
+		go func() {
+			defer func() {
+				if p := recover(); p != nil {
+					done <- "PANIC " + encStr(fmt.Sprint(p))
+				}
+			}()
+			ro := runOpts{}
+			if err := w.genProto(ro); err != nil {
+				done <- "returned"
+				return
+			}
+			_ = w.genConf(ro)
+			done <- "returned"
+		}()
+		select {
+		case s := <-done:
+			w.cleanup()
+			return s
+		case <-time.After(10 * time.Second):
+			return "HANG"
+		}
+	})
 }
+
+var c17SepTypes = []string{`map<int32, string>|{sep:";"}`, `map<int32, string>|{subsep:"="}`, `[]int32|{sep:";"}`, `[]{int32 ID, string Name}Item|{sep:";"}`,
+	`[]{int32 ID, string Name}Item|{subsep:"="}`, `map<string, int32>|{sep:"|"}`, `{int32 ID, string Name}Pair|{sep:";"}`, `map<int32, string>`, `map<uint32, int32>|{sep:";" subsep:"="}`,
+	`[]string|{subsep:":"}`, `map<enum<.FruitType>, int32>|{sep:";"}`}
+
+var c17SepCells = []string{"1:a;;2:b", "7:x;", ";", "", "1:a", "1=a,2=b", ",", "1;2;;3", "1:a|2:b||", ";;", "1,a;2,b", "=", ":", "1:a,,2:b", ";1:a", "1:;2:", "|", "1=a;2=b;", " ; ", "Apple:1;;Pear:2"}
